@@ -384,9 +384,20 @@ impl Prop for C12 {
                         }
                     }
                     labels.sort_unstable();
+                    // sometimes H gets one label that D does not have (preferably
+                    // on an isolated vertex): V(H) is then no subset of V(D) even
+                    // though |V(H)| <= |V(D)| and A(H) may still be a subset
+                    let mut h_labels = labels.clone();
+                    if bits % 3 == 0 {
+                        let iso = (0..h.order).rev().find(|&v| h.arcs.iter().all(|&(a, b)| a != v && b != v));
+                        let victim = iso.unwrap_or(h.order - 1);
+                        if let Some(&fresh) = gen::MAP_POOL.iter().rev().find(|x| !labels.contains(x)) {
+                            h_labels[victim] = fresh;
+                        }
+                    }
                     Case {
                         d: G::Map(relabel(&d, &labels)),
-                        h: G::Map(relabel(&h, &labels)),
+                        h: G::Map(relabel(&h, &h_labels)),
                         cpus,
                         kind: format!("map:{name}"),
                     }
